@@ -309,6 +309,10 @@ def equivalent(m1, m2, feeds_list, base_outs=None, nondet=()):
     """-> (verdict, detail)   verdict in ok | <kind> | inconclusive:<why>
     kinds: load, run, count, dtype, shape, value"""
     scale = reduction_scale(m1)
+    n1, n2 = [o.name for o in m1.graph.output], [o.name for o in m2.graph.output]
+    if n1 != n2:
+        # "the same outputs in the same order": a caller fetches outputs by name
+        return "output_names", f"graph outputs {n1} became {n2}"
     try:
         s2 = runner.ort_session(m2)
     except Exception as e:
